@@ -9,7 +9,8 @@
 
   `refines_step`: for every reachable `s` and `step sk s a = some s'`, either `abs s' = abs s` or
   `specStep (abs s) m = some (abs s')` with `absAct s a = some m`.  Source facts used: `Hyg`,
-  `NoChanClose`, `Wakes` (the same bundles C19 rests on).
+  `NoChanClose`, `Wakes` (the same bundles C19 rests on; `Wakes.onlyClosed` is what makes every `Receive` a
+  `register` of the specification, which refuses on a closed mailbox only).
 -/
 import Panrpc.Model.BroadcasterAbs
 import Panrpc.Lemmas.BcWake
@@ -90,6 +91,7 @@ macro "sim_fin" : tactic => `(tactic| (
 
 theorem sim_receive (t k x : Nat) (hs : step sk s (.receive t k x) = some s') : Sim s (.receive t k x) s' := by
   have hrf := hk.refuses
+  have hoc := hk.onlyClosed
   simp only [step] at hs
   (repeat' split at hs) <;> (try simp at hs) <;> (try subst hs)
   all_goals sim_fin
